@@ -15,10 +15,12 @@
 #include <etl/optional.hpp>
 #include <etl/utility.hpp>
 
+#include <limits>
 #include <optional>
 #include <string>
 #include <type_traits>
 #include <utility>
+#include <vector>
 
 using mc::cat;
 
@@ -167,6 +169,55 @@ void sweep(mc::Reporter& r, char const* tname, char const* category, std::uint64
     r.sample(cat("optional<", tname, ">: 12 operations x {empty, v1, v2}"));
 }
 
+// value_or with a fallback of ANOTHER arithmetic type (added after seeded breakage c07_value_or_cast_hoisted: the
+// static_cast<T> was moved around the whole conditional, so an engaged optional<int> made a round trip through
+// common_type<int, float>: 16777217 came back as 16777216).  Enumerated: T in {int, long long, unsigned, short} x
+// fallback type U in {float, double, long double, char, long long, unsigned long} x contained values {limits, 2^24+1,
+// 2^53+1 where representable, -1, 0} x fallback values {0, 1.5, -1} x {engaged, empty} x {const&, &&} overloads;
+// value and result type against std::optional.
+template <typename T, typename U>
+void value_or_pair(mc::Reporter& r, char const* tn, char const* un, std::uint64_t& ev)
+{
+    std::vector<long double> const vals{0.0L, -1.0L, 16777217.0L, 9007199254740993.0L, static_cast<long double>(std::numeric_limits<T>::max()), static_cast<long double>(std::numeric_limits<T>::min()),
+        static_cast<long double>(std::numeric_limits<T>::max()) - 1.0L};
+    for (long double lv : vals) {
+        if (lv > static_cast<long double>(std::numeric_limits<T>::max()) || lv < static_cast<long double>(std::numeric_limits<T>::min())) { continue; }
+        T const v = static_cast<T>(lv);
+        for (long double lf : {0.0L, 1.5L, 100.0L}) {
+            U const f = static_cast<U>(lf);
+            for (int engaged = 0; engaged < 2; ++engaged) {
+                etl::optional<T> eo;
+                std::optional<T> so;
+                if (engaged != 0) {
+                    eo = v;
+                    so = v;
+                }
+                static_assert(std::is_same_v<decltype(eo.value_or(f)), decltype(so.value_or(f))>);
+                auto const e1 = eo.value_or(f);
+                auto const s1 = so.value_or(f);
+                auto const e2 = etl::optional<T>(eo).value_or(f);
+                auto const s2 = std::optional<T>(so).value_or(f);
+                ev += 2;
+                r.outcome(mc::hash_str(cat(static_cast<long double>(s1))));
+                if (!(e1 == s1) || !(e2 == s2)) {
+                    r.violation("C07", "optional::value_or(U&&)", cat(engaged ? "engaged" : "empty", "+fallback_of_another_arithmetic_type"), cat("optional<", tn, ">{", engaged ? cat(static_cast<long double>(v)) : std::string(), "}.value_or(", un, "(", static_cast<long double>(f), "))"),
+                        cat("tetl: ", static_cast<long double>(e1), " / rvalue ", static_cast<long double>(e2), " | std: ", static_cast<long double>(s1), " / ", static_cast<long double>(s2)));
+                }
+            }
+        }
+    }
+}
+template <typename T>
+void value_or_row(mc::Reporter& r, char const* tn, std::uint64_t& ev)
+{
+    value_or_pair<T, float>(r, tn, "float", ev);
+    value_or_pair<T, double>(r, tn, "double", ev);
+    value_or_pair<T, long double>(r, tn, "long double", ev);
+    value_or_pair<T, char>(r, tn, "char", ev);
+    value_or_pair<T, long long>(r, tn, "long long", ev);
+    value_or_pair<T, unsigned long>(r, tn, "unsigned long", ev);
+}
+
 } // namespace
 
 int main(int argc, char** argv)
@@ -186,6 +237,16 @@ int main(int argc, char** argv)
         sweep<std::nullptr_t>(r, "nullptr_t", "nullptr_t", ev);
         sweep<S>(r, "S (aggregate)", "class", ev);
         sweep<NT>(r, "NT (non-trivial class)", "class", ev);
+        r.count("evaluations", ev);
+        r.count("distinct_nontrivial", ev);
+    });
+    m.job("value-or/mixed-types", {"quick", "thorough"}, [](mc::Reporter& r) {
+        std::uint64_t ev = 0;
+        value_or_row<int>(r, "int", ev);
+        value_or_row<long long>(r, "long long", ev);
+        value_or_row<unsigned>(r, "unsigned", ev);
+        value_or_row<short>(r, "short", ev);
+        r.sample("optional<T>.value_or(U) for 4 x 6 arithmetic type pairs, contained values at the limits and just beyond the precision of the fallback type");
         r.count("evaluations", ev);
         r.count("distinct_nontrivial", ev);
     });
